@@ -47,11 +47,14 @@ func checkC14(c *Ctx) {
 		"K3 every path from decode success back to the read starts exactly one handler goroutine with (s.conn, peer', decoded message); frozen exception: server4 skips a peer that is not *net.UDPAddr",
 		"K4 the read buffer is allocated inside the loop, the decoder is given exactly rbuf[:n], and the decoded message does not alias the buffer (E3, shared with C08)",
 		"K5 (v4) peer rewrite to {IPv4bcast, sender port} exactly under IP==nil or To4().Equal(IPv4zero)",
-		"K6 Close deferred on entry; Close closes the connection")
+		"K6 Close deferred on entry; Close closes the connection",
+		"K7 the handler field Serve reads is only ever set to the handler parameter the caller passed (no wrapper)")
 	r.NotDecided = append(r.NotDecided,
 		"handler concurrency and socket behaviour", "arbitrary datagram histories (only the per-iteration structure is judged)",
 		"equality of the decoded message with the datagram's decoding beyond 'decoder receives rbuf[:n]' (C01/C02/C04/C05)")
 	r.Expect("C14-serve-loops", 2)
+	c14HandlerField(c, modPath+"/dhcpv4/server4", "server4")
+	c14HandlerField(c, modPath+"/dhcpv6/server6", "server6")
 	for _, pk := range []struct{ path, dec, short string }{
 		{modPath + "/dhcpv4/server4", modPath + "/dhcpv4", "server4"},
 		{modPath + "/dhcpv6/server6", modPath + "/dhcpv6", "server6"},
@@ -655,6 +658,74 @@ func c14Close(c *Ctx, fn *ssa.Function, read *ssa.Call, key func(string) string)
 	r.Check(okAll, "C14-K6", shortName(closeFn)+": closes the connection on every path", c.P.pos(closeFn.Pos()), "conn.Close dominates every return", "Close does not close s.conn on every path")
 }
 
+// c14HandlerField: K7 — the function Serve starts per datagram is the handler the caller supplied: every store
+// into the Server's handler field (Handler / handler) stores a parameter of the storing function of the Handler
+// type itself, never a wrapper built around it (a wrapper can drop or duplicate invocations).
+func c14HandlerField(c *Ctx, pkgPath, short string) {
+	r := c.R
+	sp := c.P.SSAPkg[pkgPath]
+	if sp == nil {
+		return
+	}
+	n := 0
+	for _, f := range c.P.ModuleFuncs() {
+		if f.Pkg != sp {
+			continue
+		}
+		allInstrs(f, func(in ssa.Instruction) {
+			st, ok := in.(*ssa.Store)
+			if !ok {
+				return
+			}
+			fa, ok := st.Addr.(*ssa.FieldAddr)
+			if !ok {
+				return
+			}
+			stt := derefStruct(fa.X.Type())
+			if stt == nil || !namedIs(fa.X.Type(), pkgPath, "Server") {
+				return
+			}
+			fname := stt.Field(fa.Field).Name()
+			if !namedIs(stt.Field(fa.Field).Type(), pkgPath, "Handler") {
+				return
+			}
+			n++
+			v := st.Val
+			if ct, ok := v.(*ssa.ChangeType); ok {
+				v = ct.X
+			}
+			_, isParam := v.(*ssa.Parameter)
+			how := "the stored value is a parameter of " + shortName(f)
+			if cl, ok := v.(*ssa.Call); ok && !isParam {
+				// a constructor helper returning the wrapper: s.logReceived(handler)
+				if g := cl.Call.StaticCallee(); g != nil && inModule(g) && g.Blocks != nil {
+					if rets := returnsOf(g); len(rets) == 1 && len(rets[0].Results) == 1 {
+						rv := rets[0].Results[0]
+						if ct, ok := rv.(*ssa.ChangeType); ok {
+							rv = ct.X
+						}
+						if mc2, ok := rv.(*ssa.MakeClosure); ok {
+							v = mc2
+						}
+					}
+				}
+			}
+			if mc, ok := v.(*ssa.MakeClosure); ok && !isParam {
+				// a wrapper is the caller's handler too if every path through it calls the captured handler
+				// exactly once with the wrapper's own arguments
+				if transparentWrapper(mc) {
+					isParam = true
+					how = "a wrapper that calls the captured handler exactly once, with its own arguments, on every path"
+				}
+			}
+			r.Check(isParam, "C14-K7", short+": Server."+fname+" is the handler the caller supplied", c.P.ipos(st), how,
+				"Server."+fname+" is set to "+c.Sx().Of(st.Val).String()+" in "+shortName(f)+": Serve then starts something other than the caller's handler per datagram (a wrapper that can skip, repeat or delay the call)")
+		})
+	}
+	r.Count("C14-K7-handler-stores-"+short, n)
+	r.Expect("C14-K7-handler-stores-"+short, 1)
+}
+
 // storedInLoop: the cell is assigned inside the loop
 func storedInLoop(al *ssa.Alloc, loop map[*ssa.BasicBlock]bool) bool {
 	for _, ref := range *al.Referrers() {
@@ -663,4 +734,61 @@ func storedInLoop(al *ssa.Alloc, loop map[*ssa.BasicBlock]bool) bool {
 		}
 	}
 	return false
+}
+
+// transparentWrapper: the closure captures a function value (a parameter of the enclosing function) and every
+// path from its entry to a return passes exactly one call of that value whose arguments are the closure's own
+// parameters in order; the call is not inside a loop, a go or a defer.
+func transparentWrapper(mc *ssa.MakeClosure) bool {
+	fn, ok := mc.Fn.(*ssa.Function)
+	if !ok || fn.Blocks == nil {
+		return false
+	}
+	var calls []*ssa.Call
+	bad := false
+	allInstrs(fn, func(in ssa.Instruction) {
+		switch x := in.(type) {
+		case *ssa.Call:
+			fv, isFV := x.Call.Value.(*ssa.FreeVar)
+			if !isFV {
+				// a load of a captured cell
+				if u, ok := x.Call.Value.(*ssa.UnOp); ok {
+					fv, isFV = u.X.(*ssa.FreeVar)
+				}
+			}
+			if !isFV || fv == nil {
+				return
+			}
+			if _, isSig := fv.Type().Underlying().(*types.Signature); !isSig {
+				if pt, ok := fv.Type().Underlying().(*types.Pointer); !ok {
+					return
+				} else if _, isSig2 := pt.Elem().Underlying().(*types.Signature); !isSig2 {
+					return
+				}
+			}
+			calls = append(calls, x)
+		case *ssa.Go, *ssa.Defer:
+			if _, isFV := x.(ssa.CallInstruction).Common().Value.(*ssa.FreeVar); isFV {
+				bad = true
+			}
+		}
+	})
+	if bad || len(calls) != 1 {
+		return false
+	}
+	cl := calls[0]
+	if inCycle(cl.Block()) || len(cl.Call.Args) != len(fn.Params) {
+		return false
+	}
+	for i, a := range cl.Call.Args {
+		if a != ssa.Value(fn.Params[i]) {
+			return false
+		}
+	}
+	for _, rb := range returnBlocks(fn) {
+		if !(cl.Block() == rb || cl.Block().Dominates(rb)) {
+			return false
+		}
+	}
+	return true
 }
